@@ -7,7 +7,7 @@ import ast
 
 from ..core import AnalysisError
 from ..cfront import strip, text
-from .. import ckern, xlayer, pyxread, ceval, cq, cnorm
+from .. import ckern, xlayer, pyxread, ceval, cq, cnorm, pq
 from ..ceval import CEval, find_all, loop_parts, body_stmts, loop_var, stores_to
 from ..formula import Canon, Ratio, Undecided, show, num
 from ..pyfront import Mod, dotted, const_value
@@ -342,6 +342,18 @@ def run(rep):
         v = s.args.get(pn)
         rep.check(v is not None and v[1].init == ("const", -1) and v[1].fresh, "R06.b", "gis/grid.py", "delineate_area", f"`{pn}` initialised to -1", f"init {v[1].init if v else None}", line=s.call.lineno)
     f = s.func
+    # the inlets of THIS call: without an argument the kernel gets no inlet, not the inlets an earlier call left on the object
+    try:
+        pa_ = pq.call_arguments(f, s.call, list(s.shim.params))
+        inl = pa_.get("idxinlets")
+    except Exception:
+        inl = None
+    if inl is None:
+        rep.undecided("R06.c", "gis/grid.py", "delineate_area", "inlets handed to the kernel come from this call's argument", "argument not bound", line=s.call.lineno)
+    else:
+        stale = [show(v)[:80] for _c, v in pq.split_where(inl) if pq.mentions(v, lambda x: pq.call_named(x, "attr:_idxinlets") and x[2] == (('sym', 'self'),))]
+        rep.check(not stale, "R06.c", "gis/grid.py", "delineate_area", "inlets handed to the kernel come from this call's argument (no inlet when none is given)",
+                  f"the kernel can receive the inlets stored by an earlier call: {stale[0] if stale else ''}", line=s.call.lineno)
     okflt = _filters_nonneg(f, ast.unparse(s.args["idxcells_area"][0]) if "idxcells_area" in s.args else None)
     rep.check(okflt, "R06.b", "gis/grid.py", "delineate_area", "area = cells with a non-negative number (the -1 filling is dropped)", "", line=f.lineno)
     params = {a.arg for a in f.args.args}
